@@ -1,9 +1,10 @@
 //! C18 — a keyspace has one state, even when first used by many tasks at once.
 //!
 //! Engine E2 (Layer B, one node): k client tasks each make a *first use* of the fresh
-//! keyspace name through one of four real entry paths — the group's
+//! keyspace name through one of five real entry paths — the group's
 //! `get_or_create_keyspace` + a `Set`, the public `put`, an incoming `ConsistencyService`
-//! RPC, an incoming `GetState` RPC (what a repairing peer does) — and every interleaving of
+//! RPC, an incoming `GetState` RPC (what a repairing peer does), the node's own repair cycle
+//! against a peer that holds the keyspace — and every interleaving of
 //! their await points is explored (k = 2 unbounded, k = 3 deviation-bounded). Afterwards
 //! the mailbox a new lookup returns must serialise a set containing every acknowledged id.
 
@@ -33,7 +34,12 @@ enum Entry {
     Rpc,
     /// an incoming GetState through the real ReplicationService (no write)
     GetState,
+    /// this node's own repair cycle against a peer that holds the keyspace with one document
+    /// (id 50): the poller's path creates the keyspace, fetches the state and the document
+    Repair,
 }
+
+const PEER_DOC: u64 = 50;
 
 #[derive(Clone, Debug, PartialEq, Eq, Hash, Default)]
 struct Obs {
@@ -52,6 +58,17 @@ fn run_one(paths: &[Entry], prefix: &[usize], fine: bool) -> (Run, Obs) {
         let _wall = Wall::start();
         let node = Node::start(1, "dc", Arc::new(MemStore::default())).await;
         node.set_membership(&[(1, "dc".into())]).await;
+        // a real peer node for the repair path; it knows only itself, so nothing it writes is
+        // pushed to the node under test
+        let peer = if paths.contains(&Entry::Repair) {
+            let peer = Node::start(2, "dc", Arc::new(MemStore::default())).await;
+            peer.set_membership(&[(2, "dc".into())]).await;
+            peer.store.put(FRESH, PEER_DOC, vec![PEER_DOC as u8], Consistency::None).await.expect("peer put");
+            e2::settle().await;
+            Some(peer)
+        } else {
+            None
+        };
         let acked = std::rc::Rc::new(std::cell::RefCell::new(Vec::<u64>::new()));
         let errors = std::rc::Rc::new(std::cell::RefCell::new(Vec::<String>::new()));
         // a remote peer's clock for the incoming RPCs
@@ -67,8 +84,17 @@ fn run_one(paths: &[Entry], prefix: &[usize], fine: bool) -> (Run, Obs) {
                 let store = node.store.clone();
                 let clock = node.clock.clone();
                 let peer_clock = peer_clock.clone();
+                let network = node.network.clone();
                 let path = *path;
                 Some(Box::pin(async move {
+                    if path == Entry::Repair {
+                        let mut state = ec::RepairState::default();
+                        let peers: std::collections::BTreeMap<datacake_node::NodeId, std::net::SocketAddr> = [(2, node_addr(2))].into_iter().collect();
+                        ec::repair_cycle(group, network, &peers, &mut state).await;
+                        // the cycle is over: the peer's document counts as accepted if it was applied
+                        acked.borrow_mut().push(PEER_DOC);
+                        return;
+                    }
                     let res: Result<bool, String> = match path {
                         Entry::Direct => {
                             let ks = group.get_or_create_keyspace(FRESH).await;
@@ -92,6 +118,7 @@ fn run_one(paths: &[Entry], prefix: &[usize], fine: bool) -> (Run, Obs) {
                             let mut c = ec::ReplicationClient::<MemStore>::new(peer_clock.clone(), Channel::connect(node_addr(1)));
                             c.get_state(FRESH).await.map(|_| false).map_err(|e| e.to_string())
                         },
+                        Entry::Repair => unreachable!(),
                     };
                     match res {
                         Ok(true) => acked.borrow_mut().push(id),
@@ -108,13 +135,14 @@ fn run_one(paths: &[Entry], prefix: &[usize], fine: bool) -> (Run, Obs) {
         obs.acked.sort();
         obs.errors = errors.borrow().clone();
         match node.set_of(FRESH).await {
-            Ok(set) => obs.in_final_set = (1..=paths.len() as u64).filter(|id| set.get(id).is_some()).collect(),
+            Ok(set) => obs.in_final_set = (1..=paths.len() as u64).chain([PEER_DOC]).filter(|id| set.get(id).is_some()).collect(),
             Err(e) => obs.errors.push(e),
         }
         match read_rows(node.storage.as_ref(), FRESH).await {
             Ok(rows) => obs.in_storage = rows.iter().filter(|(_, (_, d))| d.is_some()).map(|(k, _)| *k).collect(),
             Err(e) => obs.errors.push(e),
         }
+        drop(peer);
         (run, obs)
     };
     if fine {
@@ -152,8 +180,6 @@ fn judge(paths: &[Entry], run: &Run, obs: &Obs, st: &mut Stats) {
     }
     let missing: Vec<u64> = obs.acked.iter().copied().filter(|id| !obs.in_final_set.contains(id)).collect();
     if !missing.is_empty() {
-        let only_reads_lost = missing.iter().all(|id| paths[*id as usize - 1] == Entry::Direct);
-        let _ = only_reads_lost;
         st.violation_ranked(
             "acknowledged-write-missing-from-the-keyspace-set",
             rank,
@@ -182,18 +208,18 @@ pub fn run(tier: Tier) -> i32 {
     let mut report = Report::new("C18", tier, "model_checking");
     let mut total = Stats::default();
     let mut summary = vkit::e2::Summary::default();
-    let all = [Entry::Direct, Entry::Put, Entry::Rpc, Entry::GetState];
+    let all = [Entry::Direct, Entry::Put, Entry::Rpc, Entry::GetState, Entry::Repair];
     let mut scenarios: Vec<(Vec<Entry>, Option<usize>)> = Vec::new();
     for a in 0..all.len() {
         for b in a..all.len() {
-            if all[a] == Entry::GetState && all[b] == Entry::GetState {
+            if matches!(all[a], Entry::GetState | Entry::Repair) && all[a] == all[b] {
                 continue;
             }
             scenarios.push((vec![all[a], all[b]], None));
         }
     }
     let k3 = tier.pick(2, 4);
-    for t in [[Entry::Direct, Entry::Put, Entry::Rpc], [Entry::Put, Entry::Put, Entry::GetState], [Entry::Rpc, Entry::Rpc, Entry::Direct]] {
+    for t in [[Entry::Direct, Entry::Put, Entry::Rpc], [Entry::Put, Entry::Put, Entry::GetState], [Entry::Rpc, Entry::Rpc, Entry::Direct], [Entry::Repair, Entry::Put, Entry::Rpc]] {
         scenarios.push((t.to_vec(), Some(k3)));
     }
     // the same pairs once more at single-task-poll granularity (background tasks stepped one
@@ -264,6 +290,7 @@ pub fn replay(case: &J) -> i32 {
             "Put" => Some(Entry::Put),
             "Rpc" => Some(Entry::Rpc),
             "GetState" => Some(Entry::GetState),
+            "Repair" => Some(Entry::Repair),
             _ => None,
         })
         .collect();
